@@ -58,8 +58,25 @@ def pathLine (t : Tree String) (h : String) (p : Chk (Path String)) : String :=
 
 def computeOn (ls : Array String) : Chk (Tree String) := computeTreeC mhash "" ls.toList
 
+/-- a leaf hash string given as the hex of its bytes ("-" = empty); hash strings are arbitrary strings -/
+def rawStr (tok : String) : Option String :=
+  match unhex tok with
+  | some bs => String.fromUTF8? (ByteArray.mk bs.toArray)
+  | none => none
+
 def step (s : St) (w : List String) : St × String :=
   match s.tree, w with
+  | none, ["lf", tok] =>
+    match rawStr tok with
+    | some l => ({ s with leaves := s.leaves.push l }, "ok")
+    | none => (s, "bad-op")
+  | some t, ["offerraw", i, tok] =>
+    let i := i.toNat!
+    match rawStr tok with
+    | some h =>
+      if i < s.leaves.size then (s, chk (pathByIndexC "" t (i : Int)) (fun p => chk (verdict t h p) bstr))
+      else (s, "bad-op")
+    | none => (s, "bad-op")
   | none, ["leaves", n, tag] =>
     ({ s with leaves := mkLeaves n.toNat! tag }, "ok")
   | none, ["dup", i, j] =>
